@@ -90,7 +90,8 @@ def renderValet (v : Valet) (cas : List Nat) : String :=
   let l0 := "raised=" ++ (if v.raised then "T" else "F")
   let ls := cas.map (fun ca => match lookup ca v.conns with
     | none => toString ca ++ " closed"
-    | some c => toString ca ++ " served=" ++ toString c.served ++ " parser=" ++
+    | some c => if c.req.core.gen = .unmodelled then toString ca ++ " unmodelled" else
+        toString ca ++ " served=" ++ toString c.served ++ " parser=" ++
         (if c.req.core.gen = .none then "none" else "live") ++ " left=" ++ hx c.req.msg)
   String.intercalate " | " (l0 :: ls)
 
